@@ -346,10 +346,11 @@ COQ_HEADER = ("From ZK Require Import Model.Field Model.Zq Model.QBls Model.Run.
 
 
 def _run_shard(args):
-    idx, terms, workdir = args
+    idx, terms, workdir, preamble = args
     path = os.path.join(workdir, "cases_%d.v" % idx)
     with open(path, "w") as f:
         f.write(COQ_HEADER)
+        f.write(preamble)
         for t in terms:
             f.write("Eval vm_compute in (%s).\n" % t)
     p = subprocess.run(["timeout", "1500", "coqc", "-noglob", "-Q", COQ, "ZK", "-Q", workdir, "Cases", path],
@@ -367,7 +368,7 @@ def _run_shard(args):
     return idx, res, None
 
 
-def eval_model(terms, tag, shards=16):
+def eval_model(terms, tag, shards=16, preamble=""):
     """Evaluate Gallina terms (each of type list Z) with vm_compute; returns list of int lists."""
     if not terms:
         return []
@@ -381,7 +382,7 @@ def eval_model(terms, tag, shards=16):
         chunks[i % n].append(t)
         owner.append((i % n, len(chunks[i % n]) - 1))
     with ThreadPoolExecutor(max_workers=n) as ex:
-        results = list(ex.map(_run_shard, [(i, chunks[i], workdir) for i in range(n)]))
+        results = list(ex.map(_run_shard, [(i, chunks[i], workdir, preamble) for i in range(n)]))
     by = {}
     for idx, res, err in results:
         if res is None:
@@ -467,13 +468,18 @@ class Batch:
     def __init__(self, tag):
         self.tag = tag
         self.items = []
+        self.preamble = ""
+
+    def define(self, name, term):
+        """a definition shared by all terms (emitted at the top of every shard)"""
+        self.preamble += "Definition %s := %s.\n" % (name, term)
 
     def add(self, term, cb):
         self.items.append((term, cb))
 
     def flush(self):
         items, self.items = self.items, []
-        res = eval_model([t for t, _ in items], self.tag)
+        res = eval_model([t for t, _ in items], self.tag, preamble=self.preamble)
         for (t, cb), r in zip(items, res):
             cb(r)
         return len(items)
